@@ -76,6 +76,10 @@ CHECKS = {
    technique="exhaustive enumeration of a finite product of special strings, boundary numbers, lookahead options and transition lists; three serialization routes read back; independent hand-written JSON in the README layout; behaviour of original vs read-back",
    text="Every configuration of the product round-trips by ==, re-serializes identically, equals an independently written JSON in the README layout in both directions and, if it builds, behaves like its read-back twin; the README JSON block is extracted and exercised; Match/MatchExt/Span/Position round-trip on boundary numbers.",
    note="Configurations are built through the public constructors with sorted transition lists."),
+ "C17": dict(engine="E1 langcheck on generated instances (hookcheck)", cat="model_checking", ref="§5 C17",
+   technique="fixed instance list built through the public API; each built scanner decided for ALL strings by the explicit-state product of its dumped automaton with the reference automaton, its minimizer pairs compared the same way, the inputs the property names scanned for real",
+   text="Instances whose unminimized automaton has 1 100 .. 21 000 states (thresholds other than 2^16) and, beyond 2^16 states, 65 600 patterns `a` with distinct token types (thorough: 65 535 / 65 536 copies, 65 536 distinct literals, 13 200 keywords, a{66000}b). An error from build is accepted; a scanner that builds must tokenize exactly as the longest-match rule prescribes, which the product exploration decides for every string.",
+   note="The quick tier needs about 3.5 minutes because building one automaton beyond 2^16 states takes 2.6 minutes in scnr itself (quadratic construction); VERIF_C17_BIG=0 skips that instance (then the quick tier takes 25 s and only covers thresholds below 2^16). Not a sweep: a 2^16 boundary cannot be scaled down."),
  "C18": dict(engine="E4 enumcheck (hookcheck)", cat="exploration", ref="§5 C18",
    technique="exhaustive enumeration over configuration families; every generated file parsed by a strict DOT-subset parser and compared with the automaton dump; unwritable targets",
    text="File set (one per mode, named from prefix and mode name, incl. dots/spaces/non-ASCII), node set, accepting labels, edge multiset with class ids, one cluster per lookahead with polarity and automaton are compared with the dump; missing folder / regular file / missing parent must give Err, not a panic.",
@@ -83,7 +87,6 @@ CHECKS = {
 }
 
 NOT_YET = {
- "C17": "check being built (instances beyond 2^16 states take minutes to compile); not claimed until committed",
 }
 
 def main():
